@@ -575,7 +575,8 @@ Definition step (k : kf) (pick : N) (a : action) (st : state) : state :=
       | None =>
         if kf_viewstore k || (sv i =? ver st i)
         then set_cache st (fun c' i' => if (c' =? c) && (i' =? i) then Some (sv i) else cache st c' i')
-        else st
+        else (* repaired: output of an old version is dropped again by the posted closure and the stream is queued *)
+          start_converter (set_toconv st (fupd (toconv st) c (add1 i (toconv st c))))
       end
     | None => st
     end
